@@ -168,11 +168,33 @@ def run_tlc(
     m = re.search(r"The depth of the complete state graph search is (\d+)", out)
     if m:
         r.depth = int(m.group(1))
+    # TLC's pretty printer wraps a long tuple over several lines: such lines are joined again before parsing,
+    # so that a verdict is never lost because one of its fields is a long string
+    joined: List[str] = []
+    buf: Optional[List[str]] = None
     for line in out.splitlines():
+        t = line.strip()
+        if buf is not None:
+            buf.append(t)
+            cur = " ".join(buf)
+            if cur.count("<<") == cur.count(">>") and cur.endswith(">>"):
+                joined.append(cur)
+                buf = None
+            elif len(buf) > 60:
+                joined += buf
+                buf = None
+            continue
+        if t.startswith("<<") and not (t.endswith(">>") and t.count("<<") == t.count(">>")):
+            buf = [t]
+            continue
+        joined.append(line)
+    if buf:
+        joined += buf
+    for line in joined:
         s = line.strip()
         if s.startswith("<<") and s.endswith(">>"):
             r.prints.append(s)
-            if s.startswith('<<"VERDICT"'):
+            if re.match(r'<<\s*"VERDICT"', s):
                 try:
                     r.verdicts.append(parse_tla(s)[1:])
                 except Exception as ex:  # pragma: no cover
